@@ -197,6 +197,10 @@ class ArrayConstraintBuilder(ConstraintOverrideVisitor):
                     # Extend the size appropriately
                     for i in range(max_size-len(f.field_l)):
                         f.add_field()
+            if not f.is_scalar:
+                # The elements may hold random-size lists of their own
+                for sf in f.field_l:
+                    sf.accept(self)
         elif self.phase == 1:
             if not f.is_scalar:
                 # Need to recurse into sub-fields for non-scalar arrays
